@@ -157,7 +157,7 @@ func goroutines() []gor {
 	return res
 }
 
-var permanent = regexp.MustCompile(`InsertServiceV2|numbercache\.NewCache|watchdog\.|StartPushStat|dbVersion\.throttle|x01/main|e2e\.|prometheus/.*\.(run|Run)\b|ActiveQueryTracker`)
+var permanent = regexp.MustCompile(`InsertServiceV2|numbercache\.NewCache|watchdog\.|StartPushStat|dbVersion\.throttle|prometheus/.*\.(run|Run)\b|ActiveQueryTracker`)
 var frameArgs = regexp.MustCompile(`\((0x[0-9a-f]+\??|\.\.\.|[{}, ?])*\)?$`)
 
 // role names the goroutines a tail request starts (innermost frame of the repository's reader code on the stack)
